@@ -316,6 +316,9 @@ class Inliner:
                 from .normalize import hoist_common_tails
 
                 hoist_common_tails(node)
+                from .normalize import fold_tuple_locals
+
+                fold_tuple_locals(node)
             if fmt or changed:
                 changed |= desugar_tables(node, f.module.top)  # before scalar replacement: the rows may be private records
                 changed |= scalar_replace(node, f.module)
